@@ -56,7 +56,15 @@ C05_same_final(G) ==
 C05_idempotent(G) ==
   \A b \in Members(G, "restored") : Fin(G, b).reser = TRUE
 
-GroupSignatures(G) == {}
+(* S2 at group level: a join: N with more inbound tasks than N whose number of executions      *)
+(* differs between members (late arrival after the join fired)                                *)
+KF_C07_late_arrival_after_fire(G) ==
+  \E j \in TaskNames(G.def) :
+     /\ IsJoin(G.def, j) /\ Need(G.def, j) < Cardinality(Inbound(G.def, j))
+     /\ \E a, b \in 1..Len(G.members) : Cnt(Fin(G, a).execd, j) # Cnt(Fin(G, b).execd, j)
+
+GroupSignatures(G) ==
+  IF G.kind = "order" /\ KF_C07_late_arrival_after_fire(G) THEN {"KF_C07_late_arrival_after_fire"} ELSE {}
 
 Rel(G) ==
   LET FG(n, ok) == IF ok THEN {} ELSE {n} IN
